@@ -682,6 +682,49 @@ pub fn cases(thorough: bool) -> Vec<Case> {
 pub const NESTS: [Nest; 4] =
     [Nest::Sum, Nest::SumRepeatFailed, Nest::RepeatFailedSum, Nest::RepeatSkippedSum];
 
+/// Variants run per case: the four nestings over parsed features, plus plain
+/// `Summarize` over the same features with every position erased (what a custom
+/// parser building features programmatically hands over).
+pub const VARIANTS: usize = 5;
+
+pub fn variant(cfg: &Config, vi: usize) -> (Nest, Sources) {
+    if vi < NESTS.len() {
+        return (NESTS[vi], Sources::from_config(cfg));
+    }
+    let z = gherkin::LineCol { line: 0, col: 0 };
+    let feats = cfg
+        .feats
+        .iter()
+        .enumerate()
+        .map(|(i, f)| {
+            let mut f = f.parse(i);
+            let steps = |v: &mut Vec<gherkin::Step>| v.iter_mut().for_each(|s| s.position = z);
+            f.position = z;
+            if let Some(bg) = &mut f.background {
+                bg.position = z;
+                steps(&mut bg.steps);
+            }
+            for sc in &mut f.scenarios {
+                sc.position = z;
+                steps(&mut sc.steps);
+            }
+            for r in &mut f.rules {
+                r.position = z;
+                if let Some(bg) = &mut r.background {
+                    bg.position = z;
+                    steps(&mut bg.steps);
+                }
+                for sc in &mut r.scenarios {
+                    sc.position = z;
+                    steps(&mut sc.steps);
+                }
+            }
+            f
+        })
+        .collect();
+    (Nest::Sum, Sources::from_features(feats))
+}
+
 /// Known-finding classification (DESIGN §7 D3): the stream has a `Hook::Failed`
 /// and the only deviation is in the scenario classes.
 /// The scenario classification *with the recorded defects left in*: the
@@ -860,8 +903,9 @@ pub fn run(a: &ShardArgs) -> serde_json::Value {
             continue;
         };
         done += 1;
-        let src = Sources::from_config(&cfg);
-        for (ni, nest) in NESTS.iter().enumerate() {
+        for ni in 0..VARIANTS {
+            let (nest, src) = variant(&cfg, ni);
+            let nest = &nest;
             let (obs, seen, at_fin) = run_nest(*nest, &src, &stream);
             evaluations += 1;
             // the inner writer must have seen the input unchanged (plus replays)
@@ -904,7 +948,7 @@ pub fn run(a: &ShardArgs) -> serde_json::Value {
                 if cap_ok {
                     violations.push(json!({
                         "engine": "hist", "property": "C12", "tier": a.tier,
-                        "case_index": i, "nest_index": ni, "nest": format!("{nest:?}"),
+                        "case_index": i, "nest_index": ni, "nest": format!("{nest:?}{}", if ni >= NESTS.len() { " over position-less features" } else { "" }),
                         "key": vs.iter().map(|v| v.key.clone()).collect::<Vec<_>>().join("+"),
                         "message": vs.iter().map(|v| format!("[{}] {}", v.key, v.msg)).collect::<Vec<_>>().join(" | "),
                         "finding": finding,
@@ -926,7 +970,7 @@ pub fn run(a: &ShardArgs) -> serde_json::Value {
         "property": "C12", "tier": a.tier,
         "total_configs": cases.len(), "configs_done": done, "configs_skipped_budget": skipped,
         "evaluations": evaluations, "distinct_nontrivial": nontrivial.len(),
-        "rule": "every case of the grammar (scenario shape x hooks x retry budget x fault chain x second scenario x placement x parser errors x transform) through 4 nestings of Summarize/Repeat; non-trivial = distinct streams containing a retry, a failure, a skip or a parser error",
+        "rule": "every case of the grammar (scenario shape x hooks x retry budget x fault chain x second scenario x placement x parser errors x transform) through 4 nestings of Summarize/Repeat, plus plain Summarize over the same features with all positions erased (programmatically built features); non-trivial = distinct streams containing a retry, a failure, a skip or a parser error",
         "exhaustive": skipped == 0,
         "details": {"unrealisable_cases": unrealisable, "known_finding_hits": known},
         "violations": violations, "samples": samples,
@@ -939,20 +983,20 @@ pub fn replay(j: &serde_json::Value) -> i32 {
     let ni = j["nest_index"].as_u64().unwrap() as usize;
     let cs = cases(thorough);
     let case = &cs[idx];
-    println!("{case:?}\nnest {:?}", NESTS[ni]);
     let Some((cfg, stream)) = build(case) else { return 2 };
-    let src = Sources::from_config(&cfg);
+    let (nest, src) = variant(&cfg, ni);
+    println!("{case:?}\nnest {nest:?} (variant {ni})");
     for e in &stream {
         println!("  {}", e.short());
     }
-    let (obs, seen, at_fin) = run_nest(NESTS[ni], &src, &stream);
+    let (obs, seen, at_fin) = run_nest(nest, &src, &stream);
     println!("observed {obs:?}\nrecount  {:?}", recount(&stream));
     for s in &seen {
         if let Seen::Write(w) = s {
             println!("--- summary text\n{w}");
         }
     }
-    let vs = check(NESTS[ni], &stream, &obs, &seen, &at_fin);
+    let vs = check(nest, &stream, &obs, &seen, &at_fin);
     for v in &vs {
         println!("violation C12 [{}]: {}", v.key, v.msg);
     }
